@@ -198,6 +198,13 @@ pub fn gen_c01(out: &mut dyn Write, thorough: bool, seed: u64) {
             writeln!(out, "H {CFG} {mt}^00 Fraw:{},pred:0,obs:SB,spec:0 c01", hexs(&text)).unwrap();
         }
     }
+    // sparse weight vectors at wide windows (see `sparse_wide`)
+    for (m, texts) in sparse_wide(thorough) {
+        let mt = m.to_text();
+        for t in texts {
+            writeln!(out, "H {CFG} {mt}^00 Fraw:{},pred:0,obs:SB,spec:0 c01", hexs(&t)).unwrap();
+        }
+    }
     // long texts (hundreds of characters): buffer growth, positions beyond 255, many matches
     let lopts = GenOpts { windows: &[1, 2, 3, 4, 9], max_ngrams: 6, max_words: 3, max_word_len: 6 };
     for i in 0..(if thorough { 40 } else { 4 }) {
@@ -210,6 +217,68 @@ pub fn gen_c01(out: &mut dyn Write, thorough: bool, seed: u64) {
         let text: String = text.chars().take(len).collect();
         writeln!(out, "H {CFG} {}^00 Fraw:{},pred:0,obs:SB,spec:0 c01", m.to_text(), hexs(&text)).unwrap();
     }
+}
+
+/// sparse weight vectors at wide windows: only the first k / the last k / one position carries a weight (k around the
+/// 8-entry fixed layout), alone and merged with a suffix entry, with the entry occurring at the very start, in the middle
+/// and at the very end of texts shorter and longer than the window (a vector may reach beyond either end of the text)
+pub fn sparse_wide(thorough: bool) -> Vec<(AbsModel, Vec<String>)> {
+    let mut res: Vec<(AbsModel, Vec<String>)> = vec![];
+    {
+        let shapes = |n: usize, k: usize| -> Vec<Vec<i32>> {
+            let mut v = vec![];
+            let k = k.min(n);
+            v.push((0..n).map(|i| if i < k { 3 + i as i32 } else { 0 }).collect());          // first k
+            v.push((0..n).map(|i| if i + k >= n { -2 - i as i32 } else { 0 }).collect());    // last k
+            v.push((0..n).map(|i| if i == k - 1 { 11 } else { 0 }).collect());               // k-th only
+            v.push((0..n).map(|i| if i + k == n { -7 } else { 0 }).collect());               // k-th from the end only
+            v
+        };
+        let ws: &[u8] = if thorough { &[8, 9, 10, 12, 16, 40] } else { &[8, 9, 12] };
+        let mut count = 0usize;
+        for &w in ws {
+            for len in 1..=2usize {
+                let n = 2 * w as usize - len + 1;
+                for k in [1usize, 7, 8, 9] {
+                    for (si, shape) in shapes(n, k).into_iter().enumerate() {
+                        count += 1;
+                        if !thorough && count % 2 == 0 {
+                            continue;
+                        }
+                        let gram: String = ['a', 'b'][..len].iter().collect();
+                        let mut m = AbsModel { char_w: w, type_w: w, bias: 1, ..Default::default() };
+                        match (count / 2) % 3 {
+                            0 => m.char_ngrams.push((gram.clone(), shape.clone())),
+                            1 => m.type_ngrams.push((vec![2u8; len], shape.clone())),
+                            _ => {
+                                // the same through a merge: the longer entry ends with the shorter one
+                                m.char_ngrams.push((gram.clone(), shape.clone()));
+                                let nl = 2 * w as usize - (len + 1) + 1;
+                                m.char_ngrams.push((format!("あ{gram}"), (0..nl).map(|i| if i < 8 { 1 } else { 0 }).collect()));
+                            }
+                        }
+                        if si % 2 == 0 {
+                            let wl = 8 + (count % 3);
+                            let word: String = (0..wl).map(|i| ['a', 'あ'][i % 2]).collect();
+                            m.dict.push((word, (0..=wl).map(|i| if i < k { 5 } else { 0 }).collect(), String::new()));
+                        }
+                        let fill = |c: usize| -> String { (0..c).map(|i| ['漢', '1', 'カ'][i % 3]).collect() };
+                        let texts: Vec<String> = vec![
+                            format!("{gram}{}", fill(2)),
+                            format!("{gram}{}", fill(w as usize + 3)),
+                            format!("あ{gram}{}", fill(2 * w as usize + 2)),
+                            format!("{}{gram}", fill(w as usize - 7)),
+                            format!("{}{gram}{}", fill(3), fill(1)),
+                            format!("{}aあaあaあaあaあa{gram}", fill(2 * w as usize)),
+                            gram.clone(),
+                        ];
+                        res.push((m, texts));
+                    }
+                }
+            }
+        }
+    }
+    res
 }
 
 /// a dictionary as training produces it: several words of each length, all words of one length bucket with the SAME
@@ -597,6 +666,12 @@ pub fn gen_c13(out: &mut dyn Write, thorough: bool, seed: u64) {
     use crate::model::{gen_tag_models, gen_text_tags};
     let mut r = Rng::new(seed ^ 0xC13);
     let opts = GenOpts { windows: &[1, 2, 3, 4, 5, 8, 9, 40], max_ngrams: 6, max_words: 4, max_word_len: 12 };
+    for (k, (m, texts)) in sparse_wide(thorough).into_iter().enumerate() {
+        let mt = m.to_text();
+        for t in texts.iter().skip(k % 2).step_by(2) {
+            writeln!(out, "F @ {mt} 0 {}", hexs(t)).unwrap();
+        }
+    }
     let n_models = if thorough { 3000 } else { 300 };
     for i in 0..n_models {
         let (mut m, alpha) = gen_model(&mut r, &opts);
@@ -638,6 +713,14 @@ pub fn gen_c14(out: &mut dyn Write, thorough: bool, seed: u64) {
     let mut r = Rng::new(seed ^ 0xC14);
     // windows 1..3 use the type-score cache (without tags), 4+ the automaton; weight vectors of 8 vs 9 entries
     let opts = GenOpts { windows: &[1, 2, 3, 4, 5, 8, 9], max_ngrams: 6, max_words: 4, max_word_len: 9 };
+    // sparse weight vectors at wide windows through the round trip (a serialised vector must come back in a form that scores alike)
+    for (k, (m, texts)) in sparse_wide(thorough).into_iter().enumerate() {
+        let mt = m.to_text();
+        let specs = format!("{mt}^00!{mt}^00s-");
+        for t in texts.iter().skip(k % 3).step_by(3) {
+            writeln!(out, "H {CFG} {specs} Fraw:{h},pred:0,obs,Fraw:{h},pred:1,obs c14", h = hexs(t)).unwrap();
+        }
+    }
     let n_models = if thorough { 2000 } else { 300 };
     for i in 0..n_models {
         let (mut m, alpha) = gen_model(&mut r, &opts);
